@@ -527,9 +527,31 @@ func core1(full bool, yield func(Case) bool) {
 						// read: the loop's names and every root name a loop variable shadows in this setup
 						names := append([]string{vn, idx}, rs.shadow...)
 						names = append(names, rs.idxName)
+						// every third case ends the body with an instance-local binding (a fresh name or a
+						// lower-case root name), set for the items the per-item condition selects (or for
+						// all); every instance and the probe after the loop read that name
+						var setter *Setter
+						if i%3 == 0 {
+							setter = &Setter{Name: "badge"}
+							for _, nm := range rs.shadow {
+								if nm == strings.ToLower(nm) && nm != vn && nm != idx && i%2 == 0 {
+									setter.Name = nm
+								}
+							}
+							setter.Val = "S" + setter.Name + "x"
+							if !cb.text {
+								if p, sm, _, ok := scalarPaths(inner, d, vn); ok && !noExpr(p[0]) && !hasNil(coll) && sm[0].K != "bool" {
+									setter.ID, setter.If = "s1", &Cond{Path: p[0], Op: "!=", Lit: litFor(sm[0], 2)}
+								}
+							}
+							names = append(names, setter.Name)
+						}
 						l.Body = []Node{probeRich("p1", inner, d, names, i, nil, vn)}
 						if cb.text {
 							l.Body = []Node{textOf("t1", inner, d, names, i, nil)}
+						}
+						if setter != nil {
+							l.Body = append(l.Body, Node{Set: setter})
 						}
 						if cb.els >= 0 {
 							l.Else = &Else{ID: "E1", Sep: elseSeps[cb.els], Body: []Node{only(probeOf("p2", outer, d, []string{vn, idx}, i, nil), "text", "tern")}}
@@ -951,6 +973,27 @@ func (g *gen) loop(sc sscope, depth int, outerVars []string) []Node {
 	// a quarter of the loops have a body of text alone (for <template v-for>: instances without
 	// any element); half of those still contain nested loops
 	textOnly := l.Fill == nil && len(bodyInc) == 0 && g.int(0, 3, "textonly") == 0
+	// a quarter of the loop bodies end with an instance-local binding <template NAME="VAL">,
+	// under a per-item v-if or bare; the probes of the instance and after the loop read NAME
+	var setter *Setter
+	if l.Fill == nil && g.int(0, 3, "setter") == 0 {
+		pool := []string{"badge", "mark"}
+		for _, r := range append(append([]string{}, g.roots...), g.props...) {
+			if r == strings.ToLower(r) && !noExpr(r) {
+				if v, ok := sc.lookup(g.d, r); !ok || isScalar(v.K) {
+					pool = append(pool, r)
+				}
+			}
+		}
+		nm := g.pick(pool, "setname")
+		setter = &Setter{Name: nm, Val: "S" + nm + "x"}
+		if !textOnly && g.int(0, 2, "setif") > 0 {
+			if c := g.cond(inner, l, nil); c != nil {
+				setter.ID, setter.If = g.id("s"), c
+			}
+		}
+		names = append(names, nm)
+	}
 	if depth < 3 && l.Fill == nil && !(textOnly && g.int(0, 1, "textleaf") == 0) {
 		for k := g.int(0, 2, "nnested"); k > 0; k-- {
 			inVars := uniq(append(append([]string{}, outerVars...), l.Var, l.Idx))
@@ -975,6 +1018,9 @@ func (g *gen) loop(sc sscope, depth int, outerVars []string) []Node {
 		} else {
 			l.Body = append(l.Body, probeRich(g.id("p"), inner, g.d, all, g.int(0, 19, "salt"), g.chooser(), g.pick(uniq([]string{l.Var, l.Idx}), "rich")))
 		}
+	}
+	if setter != nil {
+		l.Body = append(l.Body, Node{Set: setter}) // last: nothing of the same instance reads it
 	}
 	if g.int(0, 1, "else") == 1 {
 		l.Else = &Else{ID: g.id("E"), Sep: g.pick(elseSeps, "sep")}
